@@ -18,6 +18,8 @@ import (
 	"verifharness/sim"
 )
 
+const netSetup = `ip link set lo up; ip addr add 192.0.2.2/24 dev lo; ip -6 addr add fd00::2/64 dev lo nodad; ip route add default dev lo src 192.0.2.2; ip -6 route add default dev lo src fd00::2`
+
 type supConfig struct {
 	Prop      string
 	Tier      string
@@ -49,7 +51,14 @@ type childOutcome struct {
 
 func runChild(cfg *supConfig, spec WorkerSpec, gomaxprocs int) childOutcome {
 	b, _ := json.Marshal(spec)
-	cmd := exec.Command(os.Args[0], "-test.run", "^TestWorker$", "-test.timeout", "0", "-test.count", "1")
+	// every worker process lives in its own network namespace: kernel port numbers (SACK
+	// listeners, "closed" ports, ephemeral sources) of concurrent workers can never meet
+	args := []string{"-test.run", "^TestWorker$", "-test.timeout", "0", "-test.count", "1"}
+	cmd := exec.Command(os.Args[0], args...)
+	if os.Getenv("VERIF_NETNS") != "0" {
+		script := netSetup + `; exec "$0" "$@"`
+		cmd = exec.Command("unshare", append([]string{"-n", "sh", "-c", script, os.Args[0]}, args...)...)
+	}
 	cmd.Env = append(os.Environ(), "VERIF_ROLE=worker", "VERIF_SPEC="+string(b), "GOMAXPROCS="+strconv.Itoa(gomaxprocs))
 	var tail bytes.Buffer
 	pr, pw, _ := os.Pipe()
